@@ -498,6 +498,38 @@ func genKahn(w *bufio.Writer, r *rng, id int, maxN int) {
 		fmt.Fprintf(w, "order %s\n", pathStr(order))
 	}
 	fmt.Fprintf(w, "untouched %v\nend\n", before == obsGraph(g, d.n))
+	if exhIdx < 0 && !p && d.n >= 2 && id%2 == 0 {
+		// a second scenario on the same graph value: it was sorted above, is now changed through its reversed view,
+		// and sorted again — the order must be one of the graph as it is now
+		u, v := r.intn(d.n), r.intn(d.n)
+		rv := g.Reverse()
+		if r.chance(1, 2) && len(d.edges) > 0 {
+			e := d.edges[r.intn(len(d.edges))]
+			rv.RemoveEdge(hv{ID: e.v}, hv{ID: e.u})
+			var kept []edge
+			for _, x := range d.edges {
+				if !(x.u == e.u && x.v == e.v) {
+					kept = append(kept, x)
+				}
+			}
+			d.edges = kept
+		} else if u != v {
+			rv.AddEdgeWeighted(hv{ID: v}, hv{ID: u}, 1) // seen from the original: u -> v
+			d.edges = append(d.edges, edge{u, v, 1})
+		}
+		fmt.Fprintf(w, "scn kahn %d\n%s\n", id+1000000, d.line())
+		var order2 []interface{}
+		if recovered(func() {
+			for _, x := range g.KahnSort() {
+				order2 = append(order2, x)
+			}
+		}) {
+			fmt.Fprintf(w, "panic\n")
+		} else {
+			fmt.Fprintf(w, "order %s\n", pathStr(order2))
+		}
+		fmt.Fprintf(w, "untouched true\nend\n")
+	}
 }
 
 func genScc(w *bufio.Writer, r *rng, id int, maxN int) {
